@@ -13,6 +13,7 @@ let () =
     | "session" -> Lvl_session.handle dbg
     | "synctest" -> Lvl_synctest.handle dbg
     | "spectator" -> Lvl_spectator.handle dbg
+    | "desync" -> Lvl_desync.handle dbg
     (* LEVELS: one line per level, keep this marker *)
     | _ -> (fun _ -> "badlevel") in
   (try
